@@ -73,7 +73,18 @@ def gen_closed(r, tier):
         c = r.pick([0, 255, r.range(0, 255), r.range(0, 255)])
         ops.append(f"#const c={c} lo={lo} hi={hi} tick={tick}")
         n = 300 if kind != "pid" else 700
-        for _ in range(n):
+        # the REQUEST is what has to settle - also while the device refuses or ignores writes for a while (read-only pwm file,
+        # failing setPwm command): an outage window inside the constant phase (seed C04e: the request was only recorded
+        # when the write had succeeded)
+        fault = None
+        if kind in ("directm", "direct") and r.chance(0.35):
+            a0 = r.range(0, 12)
+            fault = (a0, a0 + r.range(1, 60), r.pick(["refused", "ignored"]))
+        for k in range(n):
+            if fault and k == fault[0]:
+                ops.append(f"w.dev pwmwrite={fault[2]}")
+            if fault and k == fault[1]:
+                ops.append("w.dev pwmwrite=applied")
             now += tick
             ops.append(f"w.cycle curve={c} now={now}")
             ops.append("w.poll")
